@@ -507,6 +507,12 @@ def _e7_walk(prog, f, br, succ, aliases, zero, neg=(), cap=3000):
                 x = resolve(c.ops[0], path) if c.ops[1].is_null else None
                 if x is not None and c.pred in ("eq", "ne") and (id(x) in al or id(c.ops[0]) in al):
                     nxt = [t.x["succ"][0] if c.pred == "eq" else t.x["succ"][1]]
+                elif c.ops[1].is_int and c.ops[1].sval != 0 and c.pred in ("eq", "ne"):
+                    # the failed result is compared with one particular error code: the side that singles that code out
+                    # is a deliberate decision about that error (e.g. "unsupported prefix: warn and skip"), not a lost one
+                    xr = resolve(c.ops[0], path)
+                    if (nz and id(xr) == nz) or id(xr) in neg:
+                        nxt = [t.x["succ"][1] if c.pred == "eq" else t.x["succ"][0]]
                 elif c.ops[1].is_int and c.ops[1].sval == 0:
                     xr = resolve(c.ops[0], path)
                     if nz and id(xr) == nz:
